@@ -146,7 +146,8 @@ Op(rr) ==
                   IN IF k < 0 THEN NewErr("seq", e.ety, Call("skip", <<V(i), Lit(k)>>))
                      ELSE NewSeq(SubSeq(xs, (IF k > n THEN n ELSE k) + 1, n), FALSE, e.ety, Call("skip", <<V(i), Lit(k)>>))
       [] o = 5 -> LET S2 == SeqEntries(e.ety, FALSE) j == Ch(S2, rr[3])
-                  IN NewSeq(xs \o pool[j].v, FALSE, e.ety, [k |-> "call", f |-> "add", sty |-> "op", args |-> <<V(i), V(j)>>])
+                  IN IF n + Len(pool[j].v) > 40 THEN Source(rr)       \* stay inside what the harness dumps (64 elements)
+                     ELSE NewSeq(xs \o pool[j].v, FALSE, e.ety, [k |-> "call", f |-> "add", sty |-> "op", args |-> <<V(i), V(j)>>])
       [] o = 6 /\ e.ety = "int" -> LET f == Fns[Ch(1..3, rr[3])]
                   IN NewSeq([j \in 1..n |-> ApplyFn(f, xs[j])], FALSE, "int", Call("map", <<V(i), Lam(f)>>))
       [] o = 7 /\ e.ety = "int" -> LET S2 == SeqEntries("int", TRUE) j == Ch(S2, rr[3])
